@@ -371,8 +371,28 @@ class Engine:
         return m
 
     def check_oneshot(self, st, extra):
-        """assertion query: fresh z3 with a short budget, then cvc5 (int-blasting), then z3 int-blasting"""
-        return self.portfolio(st, extra, skip_z3=False)
+        """assertion query: the incremental z3 solver first (the path condition is already asserted and bit-blasted
+        there), then cvc5 (int-blasting), then z3 int-blasting"""
+        if self.z3_streak >= 2:
+            return self.portfolio(st, extra, skip_z3=True)
+        self.nqueries += 1
+        self.stats['z3_queries'] += 1
+        t0 = time.time()
+        self.sync(st)
+        self.solver.push()
+        self.solver.add(extra)
+        r = self.solver.check()
+        m = self.solver.model() if r == z3.sat else None
+        self.solver.pop()
+        dt_ = time.time() - t0
+        self.solver_time += dt_
+        self.stats['z3_time'] += dt_
+        self.qhist.append(dt_)
+        if r == z3.unknown:
+            self.z3_streak += 1
+            return self.portfolio(st, extra, skip_z3=True)
+        self.z3_streak = 0
+        return m
 
     def portfolio(self, st, extra, skip_z3):
         lim = self.limits
